@@ -106,20 +106,20 @@ Proof. vm_compute. reflexivity. Qed.
 
 Example ex_select_store :
   fst (select ex_now ex_stamp ex_maxage true ex_store) =
-  [ex_fresh; ex_done; close_plan ex_stamp ex_aged; ex_live; close_plan ex_stamp ex_zero; ex_retry].
+  [ex_fresh; ex_done; close_of ex_stamp ex_aged; ex_live; close_of ex_stamp ex_zero; ex_retry].
 Proof. vm_compute. reflexivity. Qed.
 
 Example ex_aged_rows_after :
-  map row_state (rows_plan (close_plan ex_stamp ex_aged)) =
+  map row_state (rows_plan (close_of ex_stamp ex_aged)) =
   [st Failed 5000 10001;                                  (* plan: Failed, ends at the stamp *)
    st Completed 5000 5100; st Completed 5000 5100;        (* finished pre-checks: untouched *)
-   st Failed 5200 10001;                                  (* block *)
-   st Failed 5300 10001; st Failed 8999 10001;            (* continuous group and its action *)
-   st Failed 5400 10001; st Failed 5500 10001;            (* sequence, running action *)
+   st Failed 5200 8999;                                   (* block: ends at the plan's last activity *)
+   st Failed 5300 8999; st Failed 8999 8999;              (* continuous group and its action *)
+   st Failed 5400 8999; st Failed 5500 8999;              (* sequence, running action *)
    st NotStarted 0 0].                                    (* never started: stays NotStarted *)
 Proof. vm_compute. reflexivity. Qed.
 
-Example ex_aged_reason : p_reason (close_plan ex_stamp ex_aged) = FRExceedRecovery.
+Example ex_aged_reason : p_reason (close_of ex_stamp ex_aged) = FRExceedRecovery.
 Proof. reflexivity. Qed.
 
 (* the boundary is strict: 9000 + 1000 < 10000 is false, 8999 + 1000 < 10000 is true;
@@ -174,7 +174,7 @@ Proof. apply nodupb_sound. vm_compute. reflexivity. Qed.
 (* coercion.New repairs the index first: the finished plans are neither candidates nor touched *)
 Example ex_vault_repaired_first :
   open_workstream ex_now ex_stamp ex_maxage true true ex_vault =
-  ([ex_fresh; ex_done; close_plan ex_stamp ex_aged; ex_live; close_plan ex_stamp ex_zero; ex_retry; ex_done_recent],
+  ([ex_fresh; ex_done; close_of ex_stamp ex_aged; ex_live; close_of ex_stamp ex_zero; ex_retry; ex_done_recent],
    [40%N; 60%N]).
 Proof. vm_compute. reflexivity. Qed.
 
@@ -182,32 +182,55 @@ Proof. vm_compute. reflexivity. Qed.
    rewritten Failed / ExceedRecovery, the recent one is handed to runPlan and executed again *)
 Example ex_vault_unrepaired_refutes :
   snd (open_workstream_late ex_now ex_stamp ex_maxage true ex_vault) = [40%N; 60%N; 70%N] /\
-  nth 1 (fst (open_workstream_late ex_now ex_stamp ex_maxage true ex_vault)) ex_fresh = close_plan ex_stamp ex_done /\
-  close_plan ex_stamp ex_done <> ex_done.
+  nth 1 (fst (open_workstream_late ex_now ex_stamp ex_maxage true ex_vault)) ex_fresh = close_of ex_stamp ex_done /\
+  close_of ex_stamp ex_done <> ex_done.
 Proof. vm_compute. repeat split. discriminate. Qed.
+
+Definition st_eqb (a b : option state) : bool :=
+  match a, b with
+  | Some x, Some y => status_eqb (s_status x) (s_status y) && Z.eqb (s_start x) (s_start y) && Z.eqb (s_end x) (s_end y)
+  | None, None => true | _, _ => false end.
+Fixpoint list_eq_states (a b : list (option state)) : bool :=
+  match a, b with [], [] => true | x :: a, y :: b => st_eqb x y && list_eq_states a b | _, _ => false end.
 
 (* ---- a crash during the close of ex_aged (9 rows; stamp 10001), next start-up at 10100 ---- *)
 Definition ex_restart (s : store) : store * list N := select 10100 10101 ex_maxage true s.
 
-(* the code's order (plan row first): whatever the crash point j >= 1, the plan is not handed to runPlan
-   by the next incarnation ... *)
-Example ex_crash_safe_every_j :
-  forallb (fun j => match snd (ex_restart (crash_during_close j ex_now ex_stamp ex_maxage [ex_aged])) with
-                    | [] => true | _ => false end) (seq 1 9) = true.
+(* the code's order (children first, ending at the plan's last activity 8999; plan row last): whatever the
+   crash point j (0..9), the next start-up finds the plan still Running and still stale, repeats the close
+   and leaves exactly the closed plan (its own stamp on the plan row; for j = 9 nothing is left to do and the
+   first incarnation's stamp stays); nothing is resumed, nothing is left Running *)
+Example ex_interrupted_close_is_completed_every_j :
+  forallb (fun j =>
+             let r := ex_restart (crash_during_close j ex_now ex_stamp ex_maxage [ex_aged]) in
+             match snd r with [] => true | _ => false end &&
+             Nat.eqb (running_rows (fst r)) 0 &&
+             match fst r with
+             | [q] => list_eq_states (map row_state (rows_plan q))
+                        (map row_state (rows_plan (close_plan 8999 (if Nat.ltb j 9 then 10101 else ex_stamp) ex_aged)))
+                      && reason_eqb (p_reason q) FRExceedRecovery
+             | _ => false
+             end) (seq 0 10) = true.
 Proof. vm_compute. reflexivity. Qed.
 
-(* ... but the objects not yet written stay Running for good: the next incarnation does not consider the
-   plan (it is Failed), so nothing closes them.  j = 1: plan row Failed / ExceedRecovery, 5 rows Running *)
-Example ex_crash_leaves_children_running :
-  running_rows (fst (ex_restart (crash_during_close 1 ex_now ex_stamp ex_maxage [ex_aged]))) = 5 /\
-  running_rows (fst (ex_restart (crash_during_close 4 ex_now ex_stamp ex_maxage [ex_aged]))) = 4 /\
-  running_rows (fst (ex_restart (crash_during_close 9 ex_now ex_stamp ex_maxage [ex_aged]))) = 0.
-Proof. vm_compute. repeat split. Qed.
+Example ex_last_update_unchanged_by_prefix :
+  forallb (fun j => match crash_during_close j ex_now ex_stamp ex_maxage [ex_aged] with
+                    | [q] => Z.eqb (last_update q) (if Nat.ltb j 9 then 8999 else 10001)
+                    | _ => false end) (seq 0 10) = true.
+Proof. vm_compute. reflexivity. Qed.
 
-(* C11-e (sub-objects first, plan row last): after 3 writes the block carries a fresh End stamp while
-   the plan is still Running: the next incarnation takes the plan for live and resumes it *)
-Example ex_plan_row_last_refuted :
-  snd (ex_restart (persist [ex_aged] (firstn 3 (writes_plan_last (age_out ex_stamp ex_aged))))) = [30%N] /\
+(* the order before fix f93b03f (plan row first, children ending now): dying after the first write leaves
+   5 rows Running inside a Failed plan that no later start-up looks at again (R10) *)
+Definition age_out_pre (stamp : Z) (p : plan) : plan := close_plan stamp stamp p.
+Example ex_plan_row_first_refuted :
+  running_rows (fst (ex_restart (persist [ex_aged] (firstn 1 (writes_plan_first (age_out_pre ex_stamp ex_aged)))))) = 5 /\
+  snd (ex_restart (persist [ex_aged] (firstn 1 (writes_plan_first (age_out_pre ex_stamp ex_aged))))) = [].
+Proof. vm_compute. split; reflexivity. Qed.
+
+(* C11-e as it was seeded (children first but ending NOW): after 3 writes the block carries a fresh End
+   stamp while the plan is still Running: the next incarnation takes the plan for live and resumes it *)
+Example ex_fresh_stamp_refuted :
+  snd (ex_restart (persist [ex_aged] (firstn 3 (writes_aged (age_out_pre ex_stamp ex_aged))))) = [30%N] /\
   snd (ex_restart (persist [ex_aged] (firstn 3 (writes_aged (age_out ex_stamp ex_aged))))) = [].
 Proof. vm_compute. split; reflexivity. Qed.
 
